@@ -33,6 +33,15 @@ CHECKS = {
  "C13": ("exploration", "store/index cross-check, stake-movement accounting and slash-justification monitor over generated oracle life-cycle histories with real unbonding",
          "Held on the histories observed: after every operation the raw oracle records and both lookup indexes are cross-checked; bond / add-delegate / re-delegate / removal / unbond are measured on bank and staking state; each oracle taken offline in an end block must have an aged unconfirmed object created after it joined; the remove -> mature (21 days virtual time, real staking end blocker) -> withdraw cycle is completed and repeated.",
          "Zero inflation and zero fees in the harness genesis make 'stake minus penalties' an exact amount.", "4 C13"),
+ "C04": ("exploration", "per-operation balance-effect monitor + store-side conservation equation + cumulative withdrawability probe over generated bridge histories with an external-chain model",
+         "Held on the histories observed (apart from the listed known findings): after every operation the holdings of every tracked account in every token group are compared with what the operation explicitly moves; users + in-flight = initial + deposits - externally executed withdrawals is evaluated from the raw stores; at the end all holders withdraw their whole balances on a branch.",
+         "External chain = executable model of FxBridgeLogic.sol acceptance rules; zero inflation / zero gas price so FX is conserved too.", "4 C04"),
+ "C05": ("exploration", "online reference model of pool / batch / bridge-call records synchronised with the raw stores after every operation (legal-transition monitor)",
+         "Held on the histories observed (apart from the listed known finding): ids sequential and never reused, every transfer in exactly one place, content byte-equal to the request, only the location changes the operation may cause, refunds exact, third-party and post-batch cancels rejected, executed never refunded.",
+         "Same workload and model as C04.", "4 C05"),
+ "C06": ("exploration", "release monitor against the last observed external height and the external model's execution record, with heights swept around every live timeout",
+         "Held on the histories observed: every batch returned to the pool without execution and every bridge call refunded by timeout is checked against the last observed external height (observed >= timeout) and against what the external model executed (no double spend); batches are born with a timeout above the observed height.",
+         "The stricter comparison the code uses for batches (timeout < observed) is accepted; only observed < timeout is flagged.", "4 C06"),
 }
 NOT_YET = {}
 def load_props():
